@@ -224,7 +224,7 @@ def main():
             continue
         vars_coq = clist(vs, lambda v: "(mkVar %s %d)" % (D.TYPES[v.type][1], int(np.prod(v.shape)) if v.shape else 1))
         ks = list(range(len(raw)))
-        sample = set(rng.sample(ks, min(len(ks), 6 if T == "quick" else 30)))
+        sample = set(rng.sample(ks, min(len(ks), 25 if T == "quick" else 80)))
         for k in ks:
             got = dec(raw[:k])
             trunc4_checked += 1
